@@ -136,6 +136,10 @@ def cmd_run(ids, checks, tier):
     for mid in ids:
         m = load_meta(mid)
         cs = checks or [m["property"]]
+        if checks == ["regress"]:
+            # regression of the machinery: the property's own check and every check that caught it before, from scratch
+            cs = sorted(set([m["property"]] + list(m.get("caught_by", []))))
+            m["checks"] = {}
         rc, out = sh(["git", "-C", REPO, "apply", os.path.join(SEEDED, mid, "patch.diff")])
         if rc:
             print(mid, "patch does not apply:", out)
